@@ -322,11 +322,25 @@ def run(tier, seed, t0):
     fitems, nstrings = func_items(tier)
     ritems = [(first, [x], RL_GET) for first in ("alice", "bob") for x in RL_SET]
     parts = report.pmap(func_work, fitems) + report.pmap(wire_case, wire_items(tier)) + report.pmap(relogin_case, ritems) + report.pmap(late_case, late_items())
+    # a pipelined CWD while the previous command's path checks are suspended in the backend (scenario shared with
+    # C04): the location operated on must be the one the permission lookup was made for
+    from checks import c04
+    pitems = []
+    for case, bound in c04.pipelined_cwd_items(tier):
+        if case["table"] in ("none", "priv-ro", "pub-ro"):
+            pitems.append((dict(case, only_kind="operated-on-a-location-other-than-the-one-looked-up"), bound))
+    pparts = report.pmap(c04.pipelined_cwd_work, pitems)
+    for pp in pparts:
+        for v in pp.violations:
+            v["replay"] = {"pipelined_cwd": v["replay"]}
+    parts += pparts
     part = report.merge_all(parts)
     bounds = {"function": {"segments": SEGS, "prefixes": PREFIXES, "max_segments": 3 if tier == "quick" else 4,
                            "path_strings": nstrings, "cwds": len(cwds()), "bases": BASES},
               "wire": {"segments": WSEGS, "verbs": WVERBS, "cwd_histories": WCWD_HISTS,
                        "max_segments": "2 (3 for CWD/STOR/RETR)" if tier == "quick" else 3},
+              "pipelined_cwd": "scenario of C04 (suspending path checks, pipelined CWD, <= d deviations): every mutating "
+                               "backend call names a path for which a permission lookup was made",
               "relogin": {"users": "alice (base /base/A), bob (base /base/B, password)", "state_setting": RL_SET,
                           "after_relogin": RL_GET}}
     return report.finish(
@@ -343,6 +357,14 @@ def run(tier, seed, t0):
 def replay(path):
     data = json.loads(open(path).read())
     rp = data["replay"]
+    if "pipelined_cwd" in rp:
+        from checks import c04
+        from vf.simloop import Chooser
+        q = rp["pipelined_cwd"]
+        res = c04.run_pipelined_cwd(q["pipelined_cwd"], Chooser(q["choices"], q["kinds"]))
+        pr = [x for x in res["problems"] if x["kind"] == "operated-on-a-location-other-than-the-one-looked-up"]
+        print(json.dumps(pr, indent=1, default=repr))
+        return 1 if pr else 0
     if "late" in rp:
         part = late_case(tuple(rp["late"]))
     elif "relogin" in rp:
